@@ -265,6 +265,19 @@ def evaluate(e, env):
     if isinstance(e, ast.JoinedStr):
         return "".join(text_of(evaluate(v.value, env), env) if isinstance(v, ast.FormattedValue) else v.value for v in e.values)
     if isinstance(e, ast.Call):
+        if isinstance(e.func, ast.Attribute) and isinstance(e.func.value, ast.Call) and not (isinstance(e.func.value.func, ast.Name) and e.func.value.func.id == "super"):
+            # a call on the result of a call (blueprint.clone().get_model_from_str(...)): the receiver is evaluated exactly once,
+            # whichever of the cases below looks at it
+            key_ = "__recv_%d__" % id(e)
+            if key_ not in env:
+                try: rv_ = evaluate(e.func.value, env); have_ = True
+                except Unsupported: have_ = False
+                if have_:
+                    e2_ = ast.Call(func=ast.Attribute(value=ast.Name(id=key_, ctx=ast.Load()), attr=e.func.attr, ctx=ast.Load()), args=e.args, keywords=e.keywords)
+                    ast.copy_location(e2_, e); ast.copy_location(e2_.func, e.func); ast.copy_location(e2_.func.value, e.func.value)
+                    env[key_] = rv_
+                    try: return evaluate(e2_, env)
+                    finally: env.pop(key_, None)
         if isinstance(e.func, ast.Attribute) and e.func.attr in ("replace", "strip", "lstrip", "rstrip", "removeprefix", "removesuffix", "startswith", "endswith", "lower", "upper", "casefold", "join", "split", "rsplit", "partition", "rpartition", "format", "translate", "count", "find", "rfind", "index", "isdigit", "isalpha", "isalnum", "isidentifier", "isupper", "islower", "isspace", "title", "capitalize", "zfill", "splitlines", "expandtabs", "ljust", "rjust", "center", "swapcase"):
             recv = evaluate(e.func.value, env)
             if isinstance(recv, str): return getattr(recv, e.func.attr)(*_args(e.args, env))      # Python's own str semantics (trusted base)
@@ -882,6 +895,24 @@ def _exec(stmts, env, max_steps=2000):
                 try: yield from block(s.body)
                 except Raised as r:
                     if not (r.cls in names_ or any(b_ in names_ for b_ in getattr(r, "bases", ())) or any(n_ in ("Exception", "BaseException") for n_ in names_)): raise
+                continue
+            if isinstance(s, ast.With) and all(isinstance(it_.context_expr, ast.Call) for it_ in s.items) and all(isinstance(evaluate(it_.context_expr.func, env) if isinstance(it_.context_expr.func, ast.Name) and it_.context_expr.func.id in env else None, PyFn) for it_ in s.items):
+                # a context manager supplied by the analysis (a stand-in for open()): a sample with .__enter__ / .__exit__
+                cms_ = []
+                for it_ in s.items:
+                    cm_ = evaluate(it_.context_expr, env)
+                    if not (isinstance(cm_, dict) and isinstance(cm_.get(".__enter__"), PyFn) and isinstance(cm_.get(".__exit__"), PyFn)): raise Unsupported("with over a value that is no sample context manager")
+                    v_ = cm_[".__enter__"](); cms_.append(cm_)
+                    if it_.optional_vars is not None: assign(it_.optional_vars, v_)
+                try: yield from block(s.body)
+                except Raised as r:
+                    for cm_ in reversed(cms_): cm_[".__exit__"](r.cls, r, None)
+                    raise
+                except BaseException:          # a return / break / continue leaving the block
+                    for cm_ in reversed(cms_): cm_[".__exit__"](None, None, None)
+                    raise
+                else:
+                    for cm_ in reversed(cms_): cm_[".__exit__"](None, None, None)
                 continue
             if isinstance(s, ast.Global):
                 env["__global_names__"] = set(env.get("__global_names__", ())) | set(s.names); continue
